@@ -114,12 +114,15 @@ func isBigInt(t types.Type) bool {
 func isBigFloat(t types.Type) bool { return isNamed(t, "math/big", "Float") }
 func isTime(t types.Type) bool     { return isNamed(t, "time", "Time") }
 
+// isByteSlice: slices whose element type is literally byte/uint8 are modelled as immutable byte strings.
+// A slice of a NAMED byte-sized type (e.g. []Vote with `type Vote uint8`) is an ordinary slice: such
+// slices are indexed and written in place.
 func isByteSlice(t types.Type) bool {
 	s, ok := t.Underlying().(*types.Slice)
 	if !ok {
 		return false
 	}
-	b, ok := s.Elem().Underlying().(*types.Basic)
+	b, ok := types.Unalias(s.Elem()).(*types.Basic)
 	return ok && (b.Kind() == types.Uint8)
 }
 
@@ -427,7 +430,7 @@ func (r *Registry) TypeInv(term string, t types.Type, depth int) []string {
 			}
 		}
 		if u.Info()&types.IsString != 0 {
-			out = append(out, fmt.Sprintf("(>= (str_len %s) 0)", term))
+			out = append(out, fmt.Sprintf("(and (>= (str_len %s) 0) (<= (str_len %s) 9223372036854775807))", term, term))
 		}
 	case *types.Pointer, *types.Map, *types.Chan, *types.Signature:
 		out = append(out, fmt.Sprintf("(>= %s 0)", term))
@@ -435,10 +438,10 @@ func (r *Registry) TypeInv(term string, t types.Type, depth int) []string {
 		out = append(out, fmt.Sprintf("(and (>= (itag %s) 0) (>= (ival %s) 0) (=> (= (itag %s) 0) (= (ival %s) 0)))", term, term, term, term))
 	case *types.Slice:
 		if isByteSlice(t) {
-			out = append(out, fmt.Sprintf("(and (>= (str_len (b_str %s)) 0) (=> (b_nil %s) (= (b_str %s) str_empty)))", term, term, term))
+			out = append(out, fmt.Sprintf("(and (>= (str_len (b_str %s)) 0) (<= (str_len (b_str %s)) 9223372036854775807) (=> (b_nil %s) (= (b_str %s) str_empty)))", term, term, term, term))
 		} else {
 			s := r.SortOf(t)
-			out = append(out, fmt.Sprintf("(and (>= (arr_%s %s) 0) (>= (off_%s %s) 0) (>= (len_%s %s) 0) (=> (= (arr_%s %s) 0) (= (len_%s %s) 0)))", s, term, s, term, s, term, s, term, s, term))
+			out = append(out, fmt.Sprintf("(and (>= (arr_%s %s) 0) (>= (off_%s %s) 0) (>= (len_%s %s) 0) (<= (+ (off_%s %s) (len_%s %s)) 9223372036854775807) (=> (= (arr_%s %s) 0) (= (len_%s %s) 0)))", s, term, s, term, s, term, s, term, s, term, s, term, s, term))
 		}
 	case *types.Struct:
 		si := r.StructInfoOf(t)
